@@ -1,6 +1,7 @@
 package main
 
 import (
+	"math/big"
 	psatoken "github.com/veraison/psatoken"
 	"crypto"
 	"crypto/ecdsa"
@@ -98,6 +99,26 @@ func pubKey(idx int) crypto.PublicKey {
 		return ed25519.PublicKey(make([]byte, 31))
 	case -3:
 		return ed25519.PublicKey{}
+	}
+	if idx <= -100 && -100-idx < len(keyPool) {
+		// a RELATED key of pool key k = -100-idx: the same point with Y negated (a valid point of
+		// the same curve, a different key), the same RSA modulus with another public exponent
+		switch pk := keyPool[-100-idx].Priv.Public().(type) {
+		case *ecdsa.PublicKey:
+			ny := new(big.Int).Sub(pk.Curve.Params().P, pk.Y)
+			return &ecdsa.PublicKey{Curve: pk.Curve, X: new(big.Int).Set(pk.X), Y: ny}
+		case *rsa.PublicKey:
+			e := 3
+			if pk.E == 3 {
+				e = 65537
+			}
+			return &rsa.PublicKey{N: new(big.Int).Set(pk.N), E: e}
+		case ed25519.PublicKey:
+			o := append(ed25519.PublicKey{}, pk...)
+			o[31] ^= 0x80 // the other sign of x
+			return o
+		}
+		return nil
 	}
 	if idx < 0 || idx >= len(keyPool) {
 		return nil
